@@ -5,6 +5,7 @@
 package c13
 
 import (
+	"encoding/json"
 	"fmt"
 	"sort"
 	"strings"
@@ -68,10 +69,14 @@ func buildBase() *base {
 }
 
 type tuple struct {
-	Sources []int  // indices into feeMenu, one per raw request (repeats allowed)
+	Sources []int // indices into feeMenu, one per raw request (repeats allowed)
 	Ask     uint64
 	Limit   string // exact | minus1:<denom> | plus1 | missing:<denom> | empty
 	Balance string // ample | exact | short:<k>  (one unit short in the denom of the k-th charging source)
+	// Discarded: before the request, a transaction [edit every requested data source to another fee and treasury, request
+	// data from them] is executed by the real handlers on a branch of the state that is thrown away (what the chain does
+	// with a gas simulation and with a transaction whose later message fails)
+	Discarded bool `json:",omitempty"`
 }
 
 func cost(t tuple) sdk.Coins {
@@ -129,6 +134,9 @@ func runOracle(r *engine.Run, deadline time.Time) {
 				}
 				for _, bl := range bals {
 					tuples = append(tuples, tuple{Sources: sl, Ask: ask, Limit: lim, Balance: bl})
+					if (lim == "exact" || lim == "plus1") && bl != "ample" && (!r.Quick() || ask == 2) {
+						tuples = append(tuples, tuple{Sources: sl, Ask: ask, Limit: lim, Balance: bl, Discarded: true})
+					}
 				}
 			}
 		}
@@ -156,8 +164,61 @@ func runOracle(r *engine.Run, deadline time.Time) {
 		r.Exhaustive = false
 		r.CapReasons = append(r.CapReasons, "oracle fee enumeration: time cap")
 	}
+	// confirm on fresh applications (the workers evaluate many tuples on branches of one application): a record that does
+	// not reproduce is dropped when another one does, and is a harness error otherwise
+	var kept []engine.FoundViolation
+	seen := map[string]bool{}
+	var bad string
+	for _, fv := range tally.Found() {
+		if seen[fv.Fingerprint] || len(seen) >= 8 {
+			continue
+		}
+		seen[fv.Fingerprint] = true
+		t := fv.Config.(map[string]any)["tuple"].(tuple)
+		ok := true
+		for k := 0; k < 2 && ok; k++ {
+			ok = false
+			for _, x := range replayOracleTuple(t) {
+				ok = ok || x.Fingerprint == fv.Fingerprint
+			}
+		}
+		if ok {
+			kept = append(kept, fv)
+		} else if bad == "" {
+			bad = fmt.Sprintf("oracle-fee violation %q on tuple %+v did not reproduce on a fresh application", fv.Fingerprint, t)
+		}
+	}
+	if bad != "" && len(kept) == 0 {
+		engine.Fatal3("HARNESS-NONDETERMINISM: %s", bad)
+	}
 	tally.MergeInto(r)
+	if bad != "" {
+		var vs []engine.FoundViolation
+		for _, v := range r.Violations {
+			for _, k := range kept {
+				if v.Fingerprint == k.Fingerprint {
+					vs = append(vs, v)
+					break
+				}
+			}
+		}
+		r.Violations = vs
+		r.Notes = append(r.Notes, "not reported (unreproducible, consequence of state kept outside the stores): "+bad)
+	}
 	fmt.Printf("[C13] oracle fee tuples=%d evaluated=%d\n", len(tuples), tally.Evals)
+}
+
+func replayOracleTuple(t tuple) []engine.Violation {
+	engine.DetRandReset()
+	b := buildBase()
+	defer b.w.Close()
+	tl := engine.NewTally()
+	checkOracleTuple(b, t, tl)
+	var out []engine.Violation
+	for _, fv := range tl.Found() {
+		out = append(out, fv.Violation)
+	}
+	return out
 }
 
 func checkOracleTuple(b *base, t tuple, tally *engine.Tally) {
@@ -226,6 +287,26 @@ func checkOracleTuple(b *base, t tuple, tally *engine.Tally) {
 		ids[i] = b.dsIDs[s]
 	}
 	calldata := obi.MustEncode(testdata.Wasm4Input{IDs: ids, Calldata: "x"})
+	if t.Discarded {
+		g := engine.Fork(ctx)
+		var msgs []sdk.Msg
+		for _, s := range t.Sources {
+			other := sdk.NewCoins(sdk.NewInt64Coin("uband", 4))
+			for _, f := range feeMenu[s] {
+				other = other.Add(sdk.NewCoin(f.Denom, f.Amount.MulRaw(2)))
+			}
+			msgs = append(msgs, oracletypes.NewMsgEditDataSource(oracletypes.DataSourceID(b.dsIDs[s]), oracletypes.DoNotModify, oracletypes.DoNotModify,
+				oracletypes.DoNotModifyBytes, other, b.payer, bandtesting.Owner.Address, bandtesting.Owner.Address))
+		}
+		ample := sdk.NewCoins(sdk.NewInt64Coin("uband", 500), sdk.NewInt64Coin("tok", 500))
+		msgs = append(msgs, oracletypes.NewMsgRequestData(4, calldata, t.Ask, 1, "c13-discarded", ample, bandtesting.TestDefaultPrepareGas, bandtesting.TestDefaultExecuteGas,
+			bandtesting.FeePayer.Address, oracletypes.ENCODER_UNSPECIFIED))
+		if res := w.Tx(g, 0, msgs...); res.OK() {
+			tally.Saw("oracle:discarded-edit-and-request-executed")
+		} else {
+			tally.Saw("oracle:discarded-edit-and-request-rejected:" + res.ErrName())
+		}
+	}
 	msg := oracletypes.NewMsgRequestData(4, calldata, t.Ask, 1, "c13", limit, bandtesting.TestDefaultPrepareGas, bandtesting.TestDefaultExecuteGas, b.payer, oracletypes.ENCODER_UNSPECIFIED)
 	snapshot := func() map[string]string {
 		m := map[string]string{"payer": w.App.BankKeeper.GetAllBalances(ctx, b.payer).String()}
@@ -240,6 +321,9 @@ func checkOracleTuple(b *base, t tuple, tally *engine.Tally) {
 	after := snapshot()
 	tally.Eval()
 	key := fmt.Sprintf("%v|%d|%s|%s", t.Sources, t.Ask, t.Limit, t.Balance)
+	if t.Discarded {
+		key += "|after-discarded-edit-and-request"
+	}
 	cfg := map[string]any{"part": "oracle-fees", "tuple": t}
 	// reference: accept iff within limit and within balance, per denom
 	within := true
@@ -327,11 +411,27 @@ func init() {
 				"signing fees while a group transition is pending are covered by C18's search, not here",
 				"IBC-relayed oracle requests use the same CollectFee path and are not enumerated separately",
 			}
-			r.Required = []string{"oracle:ok", "oracle:oracle/43", "oracle:sdk/5", "req:ok", "reqlow:bandtss/3", "reqgov:ok", "reqpoor:sdk/5", "reqnolimit:sdk/10", "reqotherdenom:bandtss/3", "oracle-signing-created", "oracle-signing-refused:fee-limit", "signing_success", "signing_failed", "feechg:ok"}
+			r.Required = []string{"oracle:ok", "oracle:discarded-edit-and-request-executed", "oracle:oracle/43", "oracle:sdk/5", "req:ok", "reqlow:bandtss/3", "reqgov:ok", "reqpoor:sdk/5", "reqnolimit:sdk/10", "reqotherdenom:bandtss/3", "oracle-signing-created", "oracle-signing-refused:fee-limit", "signing_success", "signing_failed", "feechg:ok"}
 			deadline := r.Deadline(3*time.Minute, 20*time.Minute)
 			runOracle(r, deadline)
 			tsssig.Run(r, "C13", sigConfigs(r.Quick()), 6*time.Minute, 45*time.Minute)
 		},
-		Replay: tsssig.Replay,
+		Replay: func(raw json.RawMessage, path []string) (engine.StepResult, []string) {
+			var head struct {
+				Part  string `json:"part"`
+				Tuple tuple  `json:"tuple"`
+			}
+			if json.Unmarshal(raw, &head) == nil && head.Part == "oracle-fees" {
+				var st engine.StepResult
+				st.Violations = replayOracleTuple(head.Tuple)
+				st.Outcome = fmt.Sprintf("%d violations", len(st.Violations))
+				outs := make([]string, len(path))
+				if len(outs) > 0 {
+					outs[len(outs)-1] = st.Outcome
+				}
+				return st, outs
+			}
+			return tsssig.Replay(raw, path)
+		},
 	})
 }
